@@ -5,7 +5,7 @@ EXTENDS Likelihood, Json, IOUtils, FiniteSets
 TLog == ndJsonDeserialize(IOEnv.TRACE_FILE)
 VARIABLE k
 TInit == /\ k \in 1..Len(TLog) /\ fam = TLog[k].fam /\ cens = TLog[k].cens /\ pos = TLog[k].pos /\ shp = TLog[k].shp
-         /\ src = TLog[k].src /\ yb = TLog[k].yb /\ pb = TLog[k].pb /\ term = Term /\ kind = Kind /\ jac = Jac
+         /\ src = TLog[k].src /\ yb = TLog[k].yb /\ pb = TLog[k].pb /\ term = Term /\ kind = Kind /\ jac = Jac /\ aux = Aux
 TNext == UNCHANGED <<k, vars>>
 TSpec == TInit /\ [][TNext]_<<k, vars>>
 Rec == TLog[k]
